@@ -10,11 +10,11 @@ BATCH = 1
 TECHNIQUE = ("exhaustive evaluation over a finite parameter grid x every degree of the support up to a bound, "
              "against independently evaluated closed forms (no state space to explore: bounded exhaustive input "
              "enumeration only)")
-RULE = ("grid: a in {0.1,0.5,1,2}, mean in {0.5,1,2.5,7}, alpha in {2,2.5,3,4}, kappa in {1,5,25}; every k of the "
-        "support up to 60 (quick) / 400 (thorough); values compared with closed forms evaluated independently (exact "
+RULE = ("grid: a in {0.1,0.5,1,2}, mean in {0.5,1,2.5,7,30,120}, alpha in {2,2.5,3,4}, kappa in {0.05,1,5,25}; every k of the "
+        "support up to 200 (quick) / 400 (thorough); values compared with closed forms evaluated independently (exact "
         "factorials, zeta / polylog by direct summation with Euler-Maclaurin tail) within the documented truncation "
         "tolerance; partial sums + analytic tail compared with 1; non-trivial = one (distribution, parameters, k)")
-BOUNDS = {"quick": "k <= 60", "thorough": "k <= 400"}
+BOUNDS = {"quick": "k <= 200", "thorough": "k <= 400"}
 ASSUMPTIONS = ["real parameters admit no exhaustive enumeration: only the stated grid is covered",
                "truncation rule 'terms below 1e-6 dropped' gives a relative normaliser error <= 2*K^(1-alpha)/(alpha-1)"
                "/C with K = 10^(6/alpha)"]
@@ -43,18 +43,18 @@ def polylog(s, z, N=200000):
 def instances(tier, seed):
     for a in (0.1, 0.5, 1, 2):
         yield {"dist": "exponential", "params": [a]}
-    for m in (0.5, 1, 2.5, 7):
+    for m in (0.5, 1, 2.5, 7, 30, 120):
         yield {"dist": "poisson", "params": [m]}
     for al in (2, 2.5, 3, 4):
         yield {"dist": "power_law", "params": [al]}
-        for ka in (1, 5, 25):
+        for ka in (0.05, 1, 5, 25):
             yield {"dist": "scale_free_cut_off", "params": [al, ka]}
 
 
 def run_instance(inst, tier):
     import gcmpy
     res = Result()
-    kmax = 60 if tier == "quick" else 400
+    kmax = 200 if tier == "quick" else 400
     d, ps = inst["dist"], inst["params"]
     try:
         f = getattr(gcmpy, d)(*ps)
@@ -82,8 +82,13 @@ def run_instance(inst, tier):
         al, ka = ps
         z = math.exp(-1.0 / ka)
         C = polylog(al, z)
-        K = 10 ** (6 / al)
-        rel = 2 * min(K ** (1 - al) / (al - 1), 1e-6 / (1 - z)) / C + 1e-9
+        # documented rule: the series stops at the first term below 1e-6 (that term is still added); what is dropped
+        # is at most that term * z / (1 - z) (terms shrink at least geometrically with ratio z)
+        kstar = 1
+        while z ** kstar / kstar ** al >= 1e-6:
+            kstar += 1
+        dropped = (z ** kstar / kstar ** al) * z / (1 - z)
+        rel = 2 * dropped / C + 1e-9
         k0, exact = 1, (lambda k: k ** -al * math.exp(-k / ka) / C)
         tail = lambda K_: (C - sum(k ** -al * z ** k for k in range(1, K_ + 1))) / C
     total = 0.0
